@@ -40,6 +40,23 @@ Lemma in_concat_map_snd {A B} (l : list (A * list B)) p s :
   In p l -> In s (snd p) -> In s (concat (map snd l)).
 Proof. intros Hp Hs. apply in_concat. exists (snd p). split; [apply in_map; exact Hp|exact Hs]. Qed.
 
+Lemma Forall2_map_eq {A B C} (R : A -> B -> Prop) (f : A -> C) (g : B -> C) l1 l2 :
+  Forall2 R l1 l2 -> (forall x y, R x y -> f x = g y) -> map f l1 = map g l2.
+Proof. induction 1 as [|x y l1 l2 Hxy _ IH]; intros H; [reflexivity|]. cbn. f_equal; [apply H; exact Hxy|apply IH; exact H]. Qed.
+
+Lemma last_map {A B} (f : A -> B) l d : last (map f l) (f d) = f (last l d).
+Proof. induction l as [|x l IH]; [reflexivity|]. destruct l; [reflexivity|]. exact IH. Qed.
+
+Lemma sorted_le_last_Z l : StronglySorted Z.lt l -> forall x, In x l -> x <= last l 0.
+Proof.
+  induction l as [|a l IHl]; intros Hs x Hx; [contradiction|].
+  apply StronglySorted_inv in Hs as [Hs Ha]. destruct l as [|c l'].
+  - destruct Hx as [<-|[]]. cbn. lia.
+  - change (last (a :: c :: l') 0) with (last (c :: l') 0).
+    destruct Hx as [<-|Hx]; [|apply IHl; assumption].
+    rewrite Forall_forall in Ha. pose proof (Ha _ (last_in (c :: l') 0 ltac:(discriminate))). lia.
+Qed.
+
 Section Windows.
 Variable cw : Z -> Z -> Z.
 Variable res : Z.
